@@ -94,9 +94,9 @@ PROPS = {
         rule=BLOCK_RULE, assumptions=BLOCK_ASSUME + ['C05_bounds lower bound assumes intrinsic + refundCounter <= gas used before refund (geth gas table: every refunded unit was paid for); E-block checks intrinsic <= gasUsed on every committed tx'],
     ),
     'C06': dict(
-        lean_modules=['Model.Block', 'Model.Ante', 'Properties.C05', 'Properties.C06', 'Properties.C07', 'Facts.Block', 'Facts.Ante', 'Facts.TieTransition', 'Facts.TieMeta'],
+        lean_modules=['Model.Block', 'Model.Ante', 'Properties.C05', 'Properties.C06', 'Properties.C07', 'Facts.Block', 'Facts.Ante', 'Facts.TieTransition', 'Facts.TieAnteEvm', 'Facts.TieMeta'],
         facts=['*'],
-        theorems=['tie_pre_check_accepts', 'fact_translated_all', 'fact_uninterpreted', 'C06_authorised', 'C06_seq_plus_one', 'C06_seq_unchanged', 'C06_seq_monotone', 'C06_no_replay', 'C06_seq_counts',
+        theorems=['tie_pre_check_accepts', 'tie_validate_eoa', 'fact_translated_all', 'fact_uninterpreted', 'C06_authorised', 'C06_seq_plus_one', 'C06_seq_unchanged', 'C06_seq_monotone', 'C06_no_replay', 'C06_seq_counts',
                   'C07_handler_unreachable', 'C07_cosmos_lane', 'fact_nonce_flag_used', 'fact_ante_order', 'fact_ante_chain', 'fact_disabled_list'],
         engines=[dict(name='block', test='TestEngineBlock', quick=500, thorough=6000, thorough_seeds=3),
                  dict(name='ante', test='TestEngineAnte', quick=250, thorough=3000, thorough_seeds=2),
@@ -105,9 +105,9 @@ PROPS = {
         assumptions=BLOCK_ASSUME + ['Cosmos-lane signature verification is the SDK decorator (trusted); only its sequence effect is modelled; that an eth_secp256k1 signature binds sequence, account number and chain id in both sign modes is observed on the real VerifySignature (E-crypto) and is C19 for the rest'],
     ),
     'C13': dict(
-        lean_modules=['Model.Block', 'Model.Bloom', 'Properties.C05', 'Properties.C06', 'Model.CreateAddr', 'Properties.C13', 'Properties.C13Bloom', 'Properties.C13Create', 'Facts.Block', 'Facts.TieReceipt', 'Facts.TieMeta'],
+        lean_modules=['Model.Block', 'Model.Bloom', 'Properties.C05', 'Properties.C06', 'Model.CreateAddr', 'Properties.C13', 'Properties.C13Bloom', 'Properties.C13Create', 'Facts.Block', 'Facts.TieReceipt', 'Facts.TieAnteEvm', 'Facts.TieMeta'],
         facts=['*'],
-        theorems=['loop_spec', 'tie_tx_count', 'tie_cumulative_log_count', 'fact_translated_all', 'C13_txIndex', 'C13_receipt_index', 'C13_logIndex', 'C13_cumulativeGas', 'C13_status', 'C13_contract',
+        theorems=['loop_spec', 'tie_tx_count', 'tie_emit_event', 'tie_setup_exec', 'tie_cumulative_log_count', 'fact_translated_all', 'C13_txIndex', 'C13_receipt_index', 'C13_logIndex', 'C13_cumulativeGas', 'C13_status', 'C13_contract',
                   'C13_inv_block', 'C13_endBlock_total', 'inv_step', 'fact_log_index_restored',
                   'C13_bloom_exact', 'C13_bloom_covers', 'C13_bloom_union', 'C13_block_bloom_is_union', 'C13_block_bloom_bits', 'C13_block_bloom_order', 'C13_bloom_fits', 'testBit_logsBloom', 'C13_create_roundtrip', 'C13_create_preimage_injective', 'C13_create_address_injective', 'C17_registry_preimages_distinct', 'decodeNat_rlpNat', 'ofBE_beBytes'],
         engines=[dict(name='block', test='TestEngineBlock', quick=500, thorough=6000, thorough_seeds=3)],
@@ -143,9 +143,9 @@ PROPS = {
 
 ANTE_RULE = 'random transaction shapes (Ethereum-lane base tx with 0-2 of 20 perturbations: memo, timeout, fee amount/denoms, gas limit, extension options of three kinds, non-critical options, signatures, signer infos, payer, granter, unprotected, contract sender, low gas, tip>cap, huge gas limit, creation; Cosmos-lane txs with 1-3 message trees of exec depth 0-5 over send/grant/vesting/eth leaves, signed) x 4 modes through the real Simulate / CheckTx(recheck, new) / FinalizeBlock; non-trivial = every line; distinct by op-line hash'
 PROPS['C07'] = dict(
-    lean_modules=['Model.Ante', 'Properties.C07', 'Facts.Ante', 'Facts.TieAnte', 'Facts.TieAnteChain', 'Facts.TieAnteBasic', 'Facts.TieMeta'],
+    lean_modules=['Model.Ante', 'Properties.C07', 'Facts.Ante', 'Facts.TieAnte', 'Facts.TieAnteChain', 'Facts.TieAnteBasic', 'Facts.TieAnteEvm', 'Facts.TieMeta'],
     facts=['*'],
-    theorems=['tie_has_single_eth', 'tie_is_ethereum_tx', 'tie_ext_opt', 'tie_timeout_height', 'tie_memo', 'tie_reject_eth_msgs', 'tie_reject_eth_msgs_model', 'tie_vesting_gate', 'tie_vesting_gate_model',
+    theorems=['tie_has_single_eth', 'tie_is_ethereum_tx', 'tie_validate_eoa', 'tie_setup_exec', 'tie_emit_event', 'tie_ext_opt', 'tie_timeout_height', 'tie_memo', 'tie_reject_eth_msgs', 'tie_reject_eth_msgs_model', 'tie_vesting_gate', 'tie_vesting_gate_model',
               'tie_validate_basic', 'tie_validate_basic_shape', 'tie_validate_basic_recheck', 'tie_validate_basic_mixed', 'coinsEqual_newCoins1', 'fact_translated_all', 'fact_uninterpreted', 'C07_eth_lane', 'C07_recheck', 'C07_cosmos_lane', 'C07_exclusive', 'C07_handler_unreachable', 'C16_gate',
               'checkMsgs_sound', 'checkTail_sound', 'checkMsg_sound', 'ethLane_none', 'cosmosLane_none', 'vestingGate_sound',
               'fact_ante_chain', 'fact_disabled_list', 'fact_nested_cap'],
